@@ -248,7 +248,12 @@ class AsyncIOClient(ABC):
         """
         try:
             async with self._send_lock:
-                msgs = self._encode_impl(nmea2000Message)
+                try:
+                    msgs = self._encode_impl(nmea2000Message)
+                except Exception as ve:
+                    # whatever goes wrong while encoding is a problem of the message, not of the connection
+                    self.logger.warning(f"Failed to encode message. Error {ve}")
+                    return
                 assert self.writer is not None
                 for msg in msgs:
                     self.writer.write(msg)
